@@ -344,8 +344,12 @@ def gen_program(rng, cls):
     # interleave other statements, keeping "declared before use"
     seq = []
     assigned = []
-    for v in gvars:
-        seq.append(("set", v, ("const", rng.randint(-2, 5))))
+    for gi, v in enumerate(gvars):
+        if gi > 0 and rng.random() < 0.5:
+            # first assignment from a run-time expression: a global with a default initialiser + an assignment in setup()
+            seq.append(("set", v, ("add", gvars[rng.randrange(gi)], rng.randint(1, 4))))
+        else:
+            seq.append(("set", v, ("const", rng.randint(-2, 5))))
     if flag:
         seq.append(("set", flag, ("const", rng.randint(0, 1))))
     for _ in range(rng.randint(1, 5)):
@@ -1012,6 +1016,15 @@ def check_batch(ctx, progs, stats, known_mode=False):
                          {"src": p["src"], "input": input_script(p)},
                          {"polls": rec["pins"], "ticks": rec["ticks"]}, {"pass": k, "events": passes_a[k][:40], "setup_hk_free": hk_setup, "no_delay": no_delay},
                          key="housekeeping")
+        # ---- a DC motor is driven to a safe stop before anything else touches its pins
+        if g["well_placed"]:
+            bad = motor_first_writes(rec["fw"]["events"], p)
+            if bad:
+                rec["fails"].append("motor")
+                if not known_mode:
+                    ctx.fail("a DCMotor pin is written with a non-zero level before the motor was driven to a safe stop",
+                             {"src": p["src"]}, "first DW/AW on every motor pin writes 0 (in setup())", bad, key="motor-safe-stop")
+            stats["motor_pins_checked"] = stats.get("motor_pins_checked", 0) + sum(3 for d in p["devs"].values() if d[0] == "Motor")
         # ---- no pass is ever cut short
         if p["sentinels"]:
             for k, t in enumerate(passes_a):
@@ -1063,6 +1076,27 @@ def check_batch(ctx, progs, stats, known_mode=False):
             else:
                 stats["outside_guard_python"] += 1
     return records
+
+
+def motor_first_writes(events, prog):
+    """[(motor, pin, first write event)] for motor pins whose first DW/AW is not a 0-write inside setup()"""
+    first, phase = {}, "pre"
+    for e in events:
+        q = e.split(" ")
+        if q[0] == "M":
+            phase = "setup" if q[1] == "setup" else ("loop" if q[1] == "loop" else phase)
+        elif q[0] in ("DW", "AW") and int(q[1]) not in first:
+            first[int(q[1])] = (e, phase)
+    bad = []
+    for name, (kind, pins, _w) in prog["devs"].items():
+        if kind != "Motor":
+            continue
+        for pin in pins:
+            if pin in first and (int(first[pin][0].split(" ")[2]) != 0 or first[pin][1] != "setup"):
+                bad.append([name, pin, first[pin][0], first[pin][1]])
+            elif pin not in first:
+                bad.append([name, pin, "never written", ""])
+    return bad
 
 
 def hk_prefix_clean(t, prog):
@@ -1165,6 +1199,7 @@ def run(ctx: C.Ctx):
                          "monitor_runs_on_real_traces": stats["monitor_runs"], "inside_placement_guard": stats["in_guard_placement"],
                          "compared_with_cpython_inside_guard": n_inside, "outside_guard_not_compared": stats["outside_guard_python"],
                          "cpython_exceptions": stats["py_exc"], "prefix_runs": prefix_checked,
+                         "motor_pins_checked_for_safe_stop": stats.get("motor_pins_checked", 0),
                          "device_kinds_setup": sorted({d[0] for p in progs for d in p["devs"].values() if d[2] == "setup"}),
                          "device_kinds_loop": sorted({d[0] for p in progs for d in p["devs"].values() if d[2] == "loop"})},
         "exhaustive": False,
